@@ -1,13 +1,19 @@
-import RsMatterVerif.Model.Acl
+import RsMatterVerif.Model.AclOps
 import Driver.Util
-/-! Driver for C05: replays configuration + query lines on `Model/Acl` (DIS = the model answers
-differently from the real `AccessReq::allow`) and evaluates the declarative specification
-`Acl.grantedB` / `Acl.reachesB` on the same inputs against the implementation's decision (ORA). -/
+/-! Driver for C05: replays configuration + query lines on `Model/Acl` + `Model/AclOps` (DIS = the
+model answers differently from the real code: the answer of every mutator, the canonical dump of the
+whole fabric table, `AccessReq::allow`, both halves of every entry match, `for_session`) and evaluates
+the declarative specification `Acl.grantedB` / `Acl.reachesB` / `Acl.reachesIdB` on the same inputs
+against the implementation's decision (ORA). Every mutator line is parsed into an `Acl.CfgOp` and
+executed by `Acl.CfgOp.apply` — the function the history theorems of `Props/C05` are about. -/
 namespace Driver.C05
 open Acl
 
 structure St where
-  fabrics : List Fabric := []
+  cfg : Cfg := {}
+
+/-- the configuration as the decision sees it (also used by the C06 driver) -/
+def St.fabrics (st : St) : List Fabric := proj st.cfg.fabrics
 
 def modeOf (s : String) : Option (Option AuthMode) :=
   if s = "p" then some (some .pase) else if s = "c" then some (some .case)
@@ -29,8 +35,9 @@ def parseTarget (s : String) : Option Target :=
 
 /-- `build_entry` of the harness: `AclEntry::new` + `add_subject`* + `add_target`*;
 outer `none` = unparsable, inner `none` = the API refused (capacity). -/
-def buildEntry (pb : Nat) (mode : AuthMode) (subjects targets : String) : Option (Option Entry) := do
-  let e0 : Entry := { privilege := pb, authMode := mode, subjects := none, targets := none, fabIdx := none }
+def buildEntry (pb : Nat) (mode : AuthMode) (subjects targets : String) (stamp : Option Nat := none) :
+    Option (Option Entry) := do
+  let e0 : Entry := { privilege := pb, authMode := mode, subjects := none, targets := none, fabIdx := stamp }
   let e1 : Option Entry ←
     if subjects = "null" then pure (some e0)
     else if subjects = "e" then pure (some { e0 with subjects := some [] })
@@ -51,6 +58,100 @@ def bits (l : List Bool) : String :=
 
 def canonicalPriv (b : Nat) : Bool := (privOfBits b).isSome
 
+/-- `-` = absent -/
+def optField (s : String) : Option (Option Nat) := if s = "-" then some none else s.toNat?.map some
+
+/-- a wire entry `<priv|->~<auth|->~<subjects>~<targets>~<aux|->` -/
+def parseWire (s : String) : Option EntryIn :=
+  match s.splitOn "~" with
+  | [p, a, ss, ts, x] => do
+    let p ← optField p
+    let a ← optField a
+    let x ← optField x
+    let ss : Option (Option (List Nat)) ←
+      if ss = "-" then pure none else if ss = "null" then pure (some none) else if ss = "e" then pure (some (some []))
+      else ((ss.splitOn ",").mapM (fun (x : String) => x.toNat?)).map (fun l => some (some l))
+    let ts : Option (Option (List Target)) ←
+      if ts = "-" then pure none else if ts = "null" then pure (some none) else if ts = "e" then pure (some (some []))
+      else ((ts.splitOn ";").mapM parseTarget).map (fun l => some (some l))
+    pure { privilege := p, authMode := a, subjects := ss, targets := ts, auxiliaryType := x }
+  | _ => none
+
+def fabOk (fab : Nat) : Bool := decide (1 ≤ fab) && decide (fab ≤ 255)
+
+/-- the initializer of an `acli` / `aclui` line -/
+def parseInit (ws : List String) : Option EntryInit :=
+  match ws with
+  | ["r", stamp, pb, mode, subjects, targets] =>
+    match optNum stamp, pb.toNat?, modeOf mode with
+    | some stamp, some pb, some (some mode) =>
+      match buildEntry pb mode subjects targets stamp with
+      | none => none
+      | some none => some (.fails .resourceExhausted)
+      | some (some e) => some (.raw e)
+    | _, _, _ => none
+  | ["t", ifab, wire] =>
+    match ifab.toNat?, parseWire wire with
+    | some ifab, some w => if fabOk ifab then some (.wire ifab w) else none
+    | _, _ => none
+  | _ => none
+
+def showEntry (e : Entry) : String :=
+  let subj := match e.subjects with
+    | none => "null"
+    | some [] => "e"
+    | some l => ",".intercalate (l.map toString)
+  let showOpt (o : Option Nat) : String := match o with | some v => toString v | none => "-"
+  let targ := match e.targets with
+    | none => "null"
+    | some [] => "e"
+    | some l => "+".intercalate (l.map (fun (t : Target) => s!"{showOpt t.endpoint}/{showOpt t.cluster}/{showOpt t.deviceType}"))
+  let m := match e.authMode with | .pase => "p" | .case => "c" | .group => "g"
+  s!"{e.privilege}.{m}.{subj}.{targ}.{showOpt e.fabIdx}"
+
+def showGroup (x : XGroup) : String :=
+  let eps := if x.g.endpoints.isEmpty then "-" else ",".intercalate (x.g.endpoints.map toString)
+  let aux := match x.g.hasAuxAcl with | none => "n" | some false => "0" | some true => "1"
+  s!"{x.g.groupId}:{eps}:{aux}:{if x.managed then 1 else 0}"
+
+/-- the canonical text of the fabric table (`c05_ops::dump` of the harness) -/
+def showTable (s : List XFabric) : String :=
+  if s.isEmpty then "-"
+  else " ".intercalate (s.map (fun f =>
+    "F" ++ toString f.fabIdx ++ "{" ++ ";".intercalate (f.acl.map showEntry) ++ "|" ++
+      ";".intercalate (f.groups.map showGroup) ++ "}"))
+
+/-- `Display for AccessorSubjects` with the blanks removed -/
+def showSubjects (l : List Nat) : String :=
+  "[" ++ String.join (l.map (fun i =>
+    if isNocCat i then s!"CAT({getNocCatId i}-{getNocCatVersion i})"
+    else if i != 0 then s!"{i}," else "")) ++ "]"
+
+/-- run a mutator and compare its answer; `render` turns the model's answer into the harness's text -/
+def runOp (st : St) (o : CfgOp) (out : String) (render : Res → String) : St × String :=
+  let r := o.apply st.cfg
+  let m := render r.2
+  ({ cfg := r.1 }, if m = out then "ok" else s!"DIS {m}")
+
+def renderStd (yes no : String) : Res → String
+  | .ok => "ok"
+  | .idx n => toString n
+  | .flag b => if b then yes else no
+  | .err e => e.name
+  | .panic => "panic"
+
+/-- the outputs of the first-generation ops: every error is `err` -/
+def renderOld (yes no : String) : Res → String
+  | .err _ => "err"
+  | r => renderStd yes no r
+
+def allowLine (st : St) (acc : Accessor) (ep cl leaf : Option Nat) (opb : Nat) (perms : Option Nat)
+    (dts : List Nat) : AccessReq :=
+  let _ := st
+  { accessor := acc, object := {
+      path := { endpoint := ep, cluster := cl, leaf := leaf }, targetPerms := perms,
+      operation := opb, deviceTypes := dts } }
+
 def step (st : St) (line : String) : St × String :=
   let (op, out) := splitArrow line
   match words op with
@@ -62,17 +163,24 @@ def step (st : St) (line : String) : St × String :=
     let theirs := [f, a, s, t, g, e, c].map (fun x => x.toNat?.getD 0)
     if out ≠ "ok" then (st, s!"BAD harness built with other capacities: {out}")
     else if mine = theirs then (st, "ok") else (st, s!"DIS caps {mine}")
-  | ["fab"] =>
-    match fabricsAdd st.fabrics with
-    | some (fs, i) => if out = toString i then ({ fabrics := fs }, "ok") else ({ fabrics := fs }, s!"DIS {i}")
-    | none => if out = "err" then (st, "ok") else (st, "DIS err")
+  | ["enums", v, p, o, m, a, pp, cc, gg] =>
+    -- the wire values `privOfEnum` / `authOfEnum` / `privToEnum` assume
+    let ok := privOfEnum (v.toNat?.getD 0) = some PRIV_VIEW && privOfEnum (p.toNat?.getD 0) = some PRIV_PROXYVIEW
+      && privOfEnum (o.toNat?.getD 0) = some PRIV_OPERATE && privOfEnum (m.toNat?.getD 0) = some PRIV_MANAGE
+      && privOfEnum (a.toNat?.getD 0) = some PRIV_ADMIN && authOfEnum (pp.toNat?.getD 0) = some AuthMode.pase
+      && authOfEnum (cc.toNat?.getD 0) = some AuthMode.case && authOfEnum (gg.toNat?.getD 0) = some AuthMode.group
+    if out ≠ "ok" then (st, s!"BAD harness built with other enumeration values: {out}")
+    else if ok then (st, "ok") else (st, "DIS enums")
+  | ["dump"] =>
+    let m := showTable st.cfg.fabrics
+    if m = out then (st, "ok") else (st, s!"DIS {m}")
+  | ["fab"] => runOp st (.fabAdd none) out (renderOld "yes" "no")
   | ["rmfab", i] =>
     match i.toNat? with
     | none => (st, "BAD num")
     | some i =>
-      match (if i = 0 ∨ i > 255 then none else fabricsRemove st.fabrics i) with
-      | some fs => if out = "ok" then ({ fabrics := fs }, "ok") else ({ fabrics := fs }, "DIS ok")
-      | none => if out = "err" then (st, "ok") else (st, "DIS err")
+      if fabOk i then runOp st (.fabRemove i) out (renderOld "yes" "no")
+      else if out = "err" then (st, "ok") else (st, "DIS err")
   | ["acl", fab, pb, mode, subjects, targets] =>
     match fab.toNat?, pb.toNat?, modeOf mode with
     | some fab, some pb, some (some mode) =>
@@ -80,42 +188,108 @@ def step (st : St) (line : String) : St × String :=
       | none => (st, "BAD entry")
       | some none => if out = "err" then (st, "ok") else (st, "DIS err")
       | some (some e) =>
-        let r : Option (List Fabric × Nat) :=
-          if fab = 0 ∨ fab > 255 then none else fabricsAclAdd st.fabrics fab e
-        match r with
-        | some (fs, i) => if out = toString i then ({ fabrics := fs }, "ok") else ({ fabrics := fs }, s!"DIS {i}")
-        | none => if out = "err" then (st, "ok") else (st, "DIS err")
+        if fabOk fab then runOp st (.aclAdd fab e) out (renderOld "yes" "no")
+        else if out = "err" then (st, "ok") else (st, "DIS err")
     | _, _, _ => (st, "BAD acl")
   | ["grp", fab, gid, ep] =>
     match fab.toNat?, gid.toNat?, ep.toNat? with
     | some fab, some gid, some ep =>
-      let r : Option (List Fabric) :=
-        if fab = 0 ∨ fab > 255 ∨ gid > 65535 ∨ ep > 65535 then none
-        else fabricsGroupAdd st.fabrics fab ep gid
-      match r with
-      | some fs => if out = "ok" then ({ fabrics := fs }, "ok") else ({ fabrics := fs }, "DIS ok")
-      | none => if out = "err" then (st, "ok") else (st, "DIS err")
+      if fabOk fab && decide (gid ≤ 65535) && decide (ep ≤ 65535) then
+        runOp st (.grpAdd fab ep gid) out (fun r => match r with | .flag _ => "ok" | r => renderOld "yes" "no" r)
+      else if out = "err" then (st, "ok") else (st, "DIS err")
     | _, _, _ => (st, "BAD grp")
   | ["gaux", fab, gid, v] =>
     match fab.toNat?, gid.toNat? with
     | some fab, some gid =>
-      let r : Option (List Fabric × Bool) :=
-        if fab = 0 ∨ fab > 255 ∨ gid > 65535 then none else fabricsSetHasAux st.fabrics fab gid (v = "1")
-      match r with
-      | some (fs, ch) =>
-        let m := if ch then "changed" else "same"
-        if out = m then ({ fabrics := fs }, "ok") else ({ fabrics := fs }, s!"DIS {m}")
-      | none => if out = "err" then (st, "ok") else (st, "DIS err")
+      -- the harness looks the group up first (`f.groups().get(gid)?`)
+      let there := fabOk fab && decide (gid ≤ 65535) &&
+        (match xGet st.cfg.fabrics fab with | some f => (xGroupsFind f.groups gid).isSome | none => false)
+      if there then runOp st (.grpSetAux fab gid (v = "1")) out (renderOld "changed" "same")
+      else if out = "err" then (st, "ok") else (st, "DIS err")
     | _, _ => (st, "BAD gaux")
+  | ["aclu", fab, idx, pb, mode, subjects, targets] =>
+    match fab.toNat?, idx.toNat?, pb.toNat?, modeOf mode with
+    | some fab, some idx, some pb, some (some mode) =>
+      match buildEntry pb mode subjects targets with
+      | some (some e) => if fabOk fab then runOp st (.aclUpdate fab idx e) out (renderStd "yes" "no") else (st, "BAD fab")
+      | _ => (st, "BAD entry")
+    | _, _, _, _ => (st, "BAD aclu")
+  | "acli" :: fab :: rest =>
+    match fab.toNat?, parseInit rest with
+    | some fab, some ini => if fabOk fab then runOp st (.aclAddInit fab ini) out (renderStd "yes" "no") else (st, "BAD fab")
+    | _, _ => (st, "BAD acli")
+  | "aclui" :: fab :: idx :: rest =>
+    match fab.toNat?, idx.toNat?, parseInit rest with
+    | some fab, some idx, some ini =>
+      if fabOk fab then runOp st (.aclUpdateInit fab idx ini) out (renderStd "yes" "no") else (st, "BAD fab")
+    | _, _, _ => (st, "BAD aclui")
+  | ["aclrm", fab, idx] =>
+    match fab.toNat?, idx.toNat? with
+    | some fab, some idx => if fabOk fab then runOp st (.aclRemove fab idx) out (renderStd "yes" "no") else (st, "BAD fab")
+    | _, _ => (st, "BAD aclrm")
+  | ["aclclr", fab] =>
+    match fab.toNat? with
+    | some fab => if fabOk fab then runOp st (.aclRemoveAll fab) out (renderStd "yes" "no") else (st, "BAD fab")
+    | none => (st, "BAD aclclr")
+  | "hw" :: fab :: rest =>
+    let w : Option AclWrite := match rest with
+      | ["replace", l] => if l = "-" then some (.replace []) else ((l.splitOn "|").mapM parseWire).map .replace
+      | ["add", e] => (parseWire e).map .add
+      | ["upd", idx, e] => match idx.toNat?, parseWire e with
+        | some idx, some e => some (.update idx e)
+        | _, _ => none
+      | ["rm", idx] => idx.toNat?.map .remove
+      | _ => none
+    match fab.toNat?, w with
+    | some fab, some w => if fabOk fab then runOp st (.handlerWrite fab w) out (renderStd "yes" "no") else (st, "BAD fab")
+    | _, _ => (st, "BAD hw")
+  | ["gadd", fab, gid, ep] =>
+    match fab.toNat?, gid.toNat?, ep.toNat? with
+    | some fab, some gid, some ep =>
+      if fabOk fab && decide (gid ≤ 65535) && decide (ep ≤ 65535) then runOp st (.grpAdd fab ep gid) out (renderStd "member" "new")
+      else (st, "BAD range")
+    | _, _, _ => (st, "BAD gadd")
+  | ["grm", fab, ep, gid] =>
+    match fab.toNat?, ep.toNat?, optNum gid with
+    | some fab, some ep, some gid =>
+      if fabOk fab && decide (ep ≤ 65535) then runOp st (.grpRemove fab ep gid) out (renderStd "yes" "no") else (st, "BAD range")
+    | _, _, _ => (st, "BAD grm")
+  | ["gjoin", fab, gid, eps, replace, _policy] =>
+    match fab.toNat?, gid.toNat?, natList eps with
+    | some fab, some gid, some eps =>
+      if fabOk fab && decide (gid ≤ 65535) then runOp st (.grpJoin fab gid eps (replace = "1")) out (renderStd "yes" "no")
+      else (st, "BAD range")
+    | _, _, _ => (st, "BAD gjoin")
+  | ["gcrm", fab, gid] =>
+    match fab.toNat?, gid.toNat? with
+    | some fab, some gid =>
+      if fabOk fab && decide (gid ≤ 65535) then runOp st (.grpCastRemove fab gid) out (renderStd "yes" "no") else (st, "BAD range")
+    | _, _ => (st, "BAD gcrm")
+  | ["gauxr", fab, gid, v] =>
+    match fab.toNat?, gid.toNat? with
+    | some fab, some gid =>
+      if fabOk fab && decide (gid ≤ 65535) then runOp st (.grpSetAux fab gid (v = "1")) out (renderStd "yes" "no") else (st, "BAD range")
+    | _, _ => (st, "BAD gauxr")
+  | ["st", fab] =>
+    match fab.toNat? with
+    | some fab => if fabOk fab then runOp st (.persistStore fab) out (renderStd "yes" "no") else (st, "BAD fab")
+    | none => (st, "BAD st")
+  | ["strm", fab] =>
+    match fab.toNat? with
+    | some fab => if fabOk fab then runOp st (.persistRemove fab) out (renderStd "yes" "no") else (st, "BAD fab")
+    | none => (st, "BAD strm")
+  | ["load"] => runOp st .loadPersist out (renderStd "yes" "no")
+  | ["reload", fab] =>
+    match fab.toNat? with
+    | some fab => if fabOk fab then runOp st (.reload fab) out (renderStd "yes" "no") else (st, "BAD fab")
+    | none => (st, "BAD reload")
   | ["q", fab, mode, aux, id, cats, ep, cl, leaf, opb, perms, dts] =>
     match fab.toNat?, modeOf mode, id.toNat?, natList cats, optNum ep, optNum cl, optNum leaf,
         opb.toNat?, (if perms = "none" then some none else perms.toNat?.map some), natList dts with
     | some fab, some mode, some id, some cats, some ep, some cl, some leaf, some opb, some perms, some dts =>
       let subj := cats.foldl addCatid (subjectsNew id)
       let acc : Accessor := { fabIdx := fab, auxAclEnabled := aux = "1", subjects := subj, authMode := mode }
-      let req : AccessReq := { accessor := acc, object := {
-        path := { endpoint := ep, cluster := cl, leaf := leaf }, targetPerms := perms,
-        operation := opb, deviceTypes := dts } }
+      let req := allowLine st acc ep cl leaf opb perms dts
       let m := allow st.fabrics req
       let own := if fab = 0 then none else fabricsGet st.fabrics fab
       let (ma, md) := match own with
@@ -144,6 +318,50 @@ def step (st : St) (line : String) : St × String :=
         (st, s!"ORA spec={if reachesB st.fabrics acc endpoint then "yes" else "no"} impl={out}")
       else if m = impl then (st, "ok") else (st, s!"DIS {if m then "yes" else "no"}")
     | _, _, _, _ => (st, "BAD ep")
+  | ["sq", smode, sfab, peer, cats, gid, aux, ep, cl, leaf, opb, perms, dts] =>
+    match sfab.toNat?, optNum peer, natList cats, gid.toNat?, optNum ep, optNum cl, optNum leaf,
+        opb.toNat?, (if perms = "none" then some none else perms.toNat?.map some), natList dts with
+    | some sfab, some peer, some cats, some gid, some ep, some cl, some leaf, some opb, some perms, some dts =>
+      let mode : Option SessMode :=
+        if smode = "c" then (if fabOk sfab then some (.case sfab cats) else none)
+        else if smode = "p" then some (.pase sfab)
+        else if smode = "g" then (if fabOk sfab then some (.group sfab gid) else none)
+        else if smode = "x" then some .plainText else none
+      match mode with
+      | none => (st, "BAD session")
+      | some mode =>
+        let acc := accessorForSession mode peer (aux = "1")
+        let req := allowLine st acc ep cl leaf opb perms dts
+        let m := allow st.fabrics req
+        let am := match acc.authMode with | some .pase => "p" | some .case => "c" | some .group => "g" | none => "n"
+        let mout := s!"{if m then "allow" else "deny"} {acc.fabIdx} {am} {showSubjects acc.subjects}"
+        let implAllow := out.startsWith "allow"
+        let own := if acc.fabIdx = 0 then none else fabricsGet st.fabrics acc.fabIdx
+        let inScope := (opOfBits opb).isSome &&
+          (match own with | none => true | some f => f.acl.all (fun e => canonicalPriv e.privilege))
+        if out = "panic" then (st, "ORA panic in allow()")
+        -- an unauthenticated session is never granted anything
+        else if smode = "x" && implAllow then (st, "ORA unauthenticated session granted")
+        -- the accessor acts for the fabric of its session
+        else if (words out).getD 1 "" ≠ toString mode.fabIdx then (st, s!"ORA accessor fabric {(words out).getD 1 ""} session fabric {mode.fabIdx}")
+        else if inScope && grantedB st.fabrics req != implAllow then
+          (st, s!"ORA spec={if grantedB st.fabrics req then "allow" else "deny"} impl={out}")
+        else if mout = out then (st, "ok") else (st, s!"DIS {mout}")
+    | _, _, _, _, _, _, _, _, _, _ => (st, "BAD sq")
+  | ["sr", sfab, gid, endpoint] =>
+    match sfab.toNat?, gid.toNat?, endpoint.toNat? with
+    | some sfab, some gid, some endpoint =>
+      if fabOk sfab && decide (gid ≤ 65535) then
+        let acc := accessorForSession (.group sfab gid) none false
+        let m := isEndpointAccessible st.fabrics acc endpoint
+        let impl := out = "yes"
+        if out = "panic" then (st, "ORA panic in is_endpoint_accessible()")
+        -- the specification on the group id as it is (no narrowing)
+        else if reachesIdB st.fabrics acc endpoint != impl then
+          (st, s!"ORA spec={if reachesIdB st.fabrics acc endpoint then "yes" else "no"} impl={out}")
+        else if m = impl then (st, "ok") else (st, s!"DIS {if m then "yes" else "no"}")
+      else (st, "BAD range")
+    | _, _, _ => (st, "BAD sr")
   | _ => (st, "BAD op")
 
 def run : IO UInt32 := Driver.runLoop ({} : St) step
